@@ -1298,3 +1298,8 @@ func (markCodecF) Append(data []byte, ptr unsafe.Pointer, tag []byte) []byte {
 	data = append(data, tag...)
 	return plenccore.AppendVarUint(data, markVal(math.Float32bits(*(*float32)(ptr))))
 }
+
+// the interning histories also decide C10's "nothing decoded earlier through
+// the same instance can influence a later result" for the interning tables
+func H10h_InternHistory() { H19_History() }
+func H10h_InternLong()    { H19_Long() }
